@@ -14,6 +14,7 @@ From PowHsm Require Import Proofs.C18b.
 From PowHsm Require Import Gen.SrcM.
 From PowHsm Require Import Proofs.SrcEquivDongleM.
 From PowHsm Require Import Proofs.SrcEquivPinM.
+From PowHsm Require Import Proofs.SrcEquivSgxM.
 Open Scope N_scope.
 
 (* the confirmation loop returns yes iff the first line that normalises to yes / n / no is a yes *)
@@ -345,5 +346,33 @@ Theorem C18_source_new_pin_is_model :
          small_bytes pin ->
          srcm_HSM2Dongle__new_pin self (VBytes pin) w = mres VBool (new_pin KLedger pin w).
 Proof. exact (@srcm_new_pin_ok). Qed.
+
+(* HSM2DongleSGX.onboard as translated = the model's SGX branch on every world (one ONBOARD APDU carrying seed then PIN) *)
+Theorem C18_source_sgx_onboard_is_model :
+  forall (self : pv) (seed pin : bytes) (w : world),
+         wf_bytes pin ->
+         wf_bytes seed ->
+         srcm_HSM2DongleSGX__onboard self (VBytes seed) (VBytes pin) w =
+         mres VBool (onboard KSgx seed pin w).
+Proof. exact (@srcm_sgx_onboard_ok). Qed.
+
+(* HSM2DongleSGX.unlock likewise *)
+Theorem C18_source_sgx_unlock_is_model :
+  forall (self : pv) (pin : bytes) (w : world),
+         wf_bytes pin ->
+         srcm_HSM2DongleSGX__unlock self (VBytes pin) w = mres VBool (unlock KSgx pin w).
+Proof. exact (@srcm_sgx_unlock_ok). Qed.
+
+(* HSM2DongleSGX.new_pin likewise *)
+Theorem C18_source_sgx_new_pin_is_model :
+  forall (self : pv) (pin : bytes) (w : world),
+         wf_bytes pin ->
+         srcm_HSM2DongleSGX__new_pin self (VBytes pin) w = mres VBool (new_pin KSgx pin w).
+Proof. exact (@srcm_sgx_new_pin_ok). Qed.
+
+(* HSM2DongleSGX.echo likewise *)
+Theorem C18_source_sgx_echo_is_model :
+  forall (self : pv) (w : world), srcm_HSM2DongleSGX__echo self w = mres VBool (echo KSgx w).
+Proof. exact (@srcm_sgx_echo_ok). Qed.
 
 Example C18_nonvacuous : length PUBKEY_PATHS = 6%nat. Proof. exact pubkey_paths_are_six. Qed. (* vm_compute examples in Proofs/C18.v: ex_ledger_onboarded (42 destructive APDUs at exact positions), ex_carried_out_applies, ex_operator_says_no, ex_already_onboarded, ex_signer_mode_refused, ex_bad_echo_refused, ex_digits_only_pin_refused, ex_short_seed_refused, ex_sgx_onboarded, ex_unlock_sends_pin, ex_changepin, ex_pubkeys *)
